@@ -221,8 +221,8 @@ def render(rec, seed):
 # bounds of the property (counts <= 64, shift counts small, no uninterruptible big-integer work)
 # ------------------------------------------------------------------------------------------------
 # a small literal shift count, not continued by an operator that binds tighter than the shift ('3 + big',
-# '3 * big', '3 - -big', '-1 % big') or by a call '3 (big)', whose value would be the count
-_SMALL = r"\s*-?(\d{1,4})\.?(?![\w$.])(?![ \t]*[-+*(%])"
+# '3 * big', '3 / 1 - big', '3 - -big', '-1 % big') or by a call '3 (big)', whose value would be the count
+_SMALL = r"\s*-?(\d{1,4})\.?(?![\w$.])(?![ \t]*[-+*/(%])"
 _SHIFT = re.compile(r"<<|>>|(?<![\w$.])_")
 _REPEAT = re.compile(r"repeat\b\s*(\S*)", re.I)
 _ALIGN = re.compile(r"align\b\s*(\S*)", re.I)
